@@ -107,7 +107,7 @@ mod verif_c06 {
         std::mem::forget(bs);
     }
 
-    // @harness id=C06 tier=quick timeout=1800 mem=6 checks=rust
+    // @harness id=C06 tier=quick timeout=1800 mem=10 checks=rust
     // @bounds explicitly hidden target: two symbolic operations out of {tick, set position, set/inc/dec/unset length, reset} with u64 arguments; every console::Term output method and format_state panic when reached; getters compared with the reference model
     #[kani::proof]
     #[kani::unwind(6)]
@@ -116,7 +116,7 @@ mod verif_c06 {
         run(0, 0);
     }
 
-    // @harness id=C06 tier=quick timeout=1800 mem=6 checks=rust
+    // @harness id=C06 tier=quick timeout=1800 mem=10 checks=rust
     // @bounds explicitly hidden target: set_message then set_prefix; every console::Term output method and format_state panic when reached; getters compared with the reference model
     #[kani::proof]
     #[kani::unwind(6)]
@@ -125,7 +125,7 @@ mod verif_c06 {
         run(0, 1);
     }
 
-    // @harness id=C06 tier=quick timeout=1800 mem=6 checks=rust
+    // @harness id=C06 tier=quick timeout=1800 mem=10 checks=rust
     // @bounds explicitly hidden target: finish; every console::Term output method and format_state panic when reached; getters compared with the reference model
     #[kani::proof]
     #[kani::unwind(6)]
@@ -134,7 +134,7 @@ mod verif_c06 {
         run(0, 2);
     }
 
-    // @harness id=C06 tier=quick timeout=1800 mem=6 checks=rust
+    // @harness id=C06 tier=quick timeout=1800 mem=10 checks=rust
     // @bounds explicitly hidden target: abandon_with_message; every console::Term output method and format_state panic when reached; getters compared with the reference model
     #[kani::proof]
     #[kani::unwind(6)]
@@ -143,7 +143,7 @@ mod verif_c06 {
         run(0, 3);
     }
 
-    // @harness id=C06 tier=quick timeout=1800 mem=6 checks=rust
+    // @harness id=C06 tier=quick timeout=1800 mem=10 checks=rust
     // @bounds explicitly hidden target: println; every console::Term output method and format_state panic when reached; getters compared with the reference model
     #[kani::proof]
     #[kani::unwind(6)]
@@ -152,7 +152,7 @@ mod verif_c06 {
         run(0, 4);
     }
 
-    // @harness id=C06 tier=quick timeout=1800 mem=6 checks=rust
+    // @harness id=C06 tier=quick timeout=1800 mem=10 checks=rust
     // @bounds explicitly hidden target: suspend; every console::Term output method and format_state panic when reached; getters compared with the reference model
     #[kani::proof]
     #[kani::unwind(6)]
@@ -161,7 +161,7 @@ mod verif_c06 {
         run(0, 5);
     }
 
-    // @harness id=C06 tier=quick timeout=1800 mem=6 checks=rust
+    // @harness id=C06 tier=quick timeout=1800 mem=10 checks=rust
     // @bounds console::Term that is not a tty (with its 20 Hz limiter): two symbolic operations out of {tick, set position, set/inc/dec/unset length, reset} with u64 arguments; every console::Term output method and format_state panic when reached; getters compared with the reference model
     #[kani::proof]
     #[kani::unwind(6)]
@@ -170,7 +170,7 @@ mod verif_c06 {
         run(1, 0);
     }
 
-    // @harness id=C06 tier=thorough timeout=1800 mem=6 checks=rust
+    // @harness id=C06 tier=thorough timeout=1800 mem=10 checks=rust
     // @bounds console::Term that is not a tty (with its 20 Hz limiter): set_message then set_prefix; every console::Term output method and format_state panic when reached; getters compared with the reference model
     #[kani::proof]
     #[kani::unwind(6)]
@@ -179,7 +179,7 @@ mod verif_c06 {
         run(1, 1);
     }
 
-    // @harness id=C06 tier=thorough timeout=1800 mem=6 checks=rust
+    // @harness id=C06 tier=thorough timeout=1800 mem=10 checks=rust
     // @bounds console::Term that is not a tty (with its 20 Hz limiter): finish; every console::Term output method and format_state panic when reached; getters compared with the reference model
     #[kani::proof]
     #[kani::unwind(6)]
@@ -188,7 +188,7 @@ mod verif_c06 {
         run(1, 2);
     }
 
-    // @harness id=C06 tier=thorough timeout=1800 mem=6 checks=rust
+    // @harness id=C06 tier=thorough timeout=1800 mem=10 checks=rust
     // @bounds console::Term that is not a tty (with its 20 Hz limiter): abandon_with_message; every console::Term output method and format_state panic when reached; getters compared with the reference model
     #[kani::proof]
     #[kani::unwind(6)]
@@ -197,7 +197,7 @@ mod verif_c06 {
         run(1, 3);
     }
 
-    // @harness id=C06 tier=quick timeout=1800 mem=6 checks=rust
+    // @harness id=C06 tier=quick timeout=1800 mem=10 checks=rust
     // @bounds console::Term that is not a tty (with its 20 Hz limiter): println; every console::Term output method and format_state panic when reached; getters compared with the reference model
     #[kani::proof]
     #[kani::unwind(6)]
@@ -206,7 +206,7 @@ mod verif_c06 {
         run(1, 4);
     }
 
-    // @harness id=C06 tier=quick timeout=1800 mem=6 checks=rust
+    // @harness id=C06 tier=quick timeout=1800 mem=10 checks=rust
     // @bounds console::Term that is not a tty (with its 20 Hz limiter): suspend; every console::Term output method and format_state panic when reached; getters compared with the reference model
     #[kani::proof]
     #[kani::unwind(6)]
@@ -215,7 +215,7 @@ mod verif_c06 {
         run(1, 5);
     }
 
-    // @harness id=C06 tier=quick timeout=1800 mem=6 checks=rust
+    // @harness id=C06 tier=thorough timeout=3400 mem=24 checks=rust
     // @bounds member of a MultiProgress whose draw target is hidden (real MultiState::draw / suspend / width): two symbolic operations out of {tick, set position, set/inc/dec/unset length, reset} with u64 arguments; every console::Term output method and format_state panic when reached; getters compared with the reference model
     #[kani::proof]
     #[kani::unwind(6)]
@@ -224,7 +224,7 @@ mod verif_c06 {
         run(2, 0);
     }
 
-    // @harness id=C06 tier=thorough timeout=1800 mem=6 checks=rust
+    // @harness id=C06 tier=thorough timeout=3400 mem=24 checks=rust
     // @bounds member of a MultiProgress whose draw target is hidden (real MultiState::draw / suspend / width): set_message then set_prefix; every console::Term output method and format_state panic when reached; getters compared with the reference model
     #[kani::proof]
     #[kani::unwind(6)]
@@ -233,7 +233,7 @@ mod verif_c06 {
         run(2, 1);
     }
 
-    // @harness id=C06 tier=thorough timeout=1800 mem=6 checks=rust
+    // @harness id=C06 tier=thorough timeout=3400 mem=24 checks=rust
     // @bounds member of a MultiProgress whose draw target is hidden (real MultiState::draw / suspend / width): finish; every console::Term output method and format_state panic when reached; getters compared with the reference model
     #[kani::proof]
     #[kani::unwind(6)]
@@ -242,7 +242,7 @@ mod verif_c06 {
         run(2, 2);
     }
 
-    // @harness id=C06 tier=thorough timeout=1800 mem=6 checks=rust
+    // @harness id=C06 tier=thorough timeout=3400 mem=24 checks=rust
     // @bounds member of a MultiProgress whose draw target is hidden (real MultiState::draw / suspend / width): abandon_with_message; every console::Term output method and format_state panic when reached; getters compared with the reference model
     #[kani::proof]
     #[kani::unwind(6)]
@@ -251,7 +251,7 @@ mod verif_c06 {
         run(2, 3);
     }
 
-    // @harness id=C06 tier=quick timeout=1800 mem=6 checks=rust
+    // @harness id=C06 tier=thorough timeout=3400 mem=24 checks=rust
     // @bounds member of a MultiProgress whose draw target is hidden (real MultiState::draw / suspend / width): println; every console::Term output method and format_state panic when reached; getters compared with the reference model
     #[kani::proof]
     #[kani::unwind(6)]
@@ -260,7 +260,7 @@ mod verif_c06 {
         run(2, 4);
     }
 
-    // @harness id=C06 tier=quick timeout=1800 mem=6 checks=rust
+    // @harness id=C06 tier=thorough timeout=3400 mem=24 checks=rust
     // @bounds member of a MultiProgress whose draw target is hidden (real MultiState::draw / suspend / width): suspend; every console::Term output method and format_state panic when reached; getters compared with the reference model
     #[kani::proof]
     #[kani::unwind(6)]
@@ -269,4 +269,23 @@ mod verif_c06 {
         run(2, 5);
     }
 
+
+    // @harness id=C06 tier=quick timeout=1200 mem=10 checks=rust
+    // @bounds the gate every terminal write passes (see the engine M part): ProgressDrawTarget::drawable(force_draw symbolic, now) offers NO drawable for an explicitly hidden target and for a console::Term that is not a tty -- forced draws included; is_hidden() is true for both
+    #[kani::proof]
+    #[kani::unwind(6)]
+    //@STUBS std now nontty nomulti norender rlany noweight
+    fn c06_hidden_targets_offer_no_drawable() {
+        let kind: u8 = kani::any();
+        kani::assume(kind < 2);
+        let mut t = if kind == 0 { ProgressDrawTarget::hidden() } else { ProgressDrawTarget::term(console::Term::buffered_stderr(), 20) };
+        let force: bool = kani::any();
+        assert!(t.is_hidden());
+        let d = t.drawable(force, mk_instant(1_000_000, 0));
+        assert!(d.is_none());
+        kani::cover!(kind == 1 && force);
+        kani::cover!(kind == 0 && !force);
+        std::mem::forget(d);
+        std::mem::forget(t);
+    }
 }
